@@ -72,7 +72,7 @@ ResultDiff(e, hp, g) ==
   CASE e.act = "copy" -> FileDiff(g, Exp_copy(f, a), "full")
     [] e.act = "slice" -> FileDiff(g, Exp_slice(f, a), "full")
     [] e.act = "apply" -> FileDiff(g, Exp_apply(f, a), "val")
-    [] e.act = "stack" -> FileDiff(g, Exp_stack(Files(hp, <<e.src>> \o e.others), a), "full")
+    [] e.act = "stack" -> FileDiff(g, Exp_stack(Files(hp, <<e.src>> \o e.others), a), "fullfv")
     [] e.act = "subset" -> FileDiff(g, Exp_subset(f, a), "full")
     [] e.act = "renamevar" -> FileDiff(g, Exp_renamevar(f, a), "full")
     [] e.act = "renamedim" -> FileDiff(g, Exp_renamedim(f, a), "full")
